@@ -36,7 +36,7 @@ Definition of_key_event (ev : Keyboard.key_event) : keyevent :=
 
 Definition press (conv : conv_fn memdict) (c : cctx) (ev : outcome Keyboard.key_event) : outcome cctx :=
   match ev with
-  | Ok ev => match ml_key conv (cx_ed c) (of_key_event ev) with
+  | Ok ev => match ml_key mdf_ops conv (cx_ed c) (of_key_event ev) with
              | Ok r => Ok (with_ed c (fst r))
              | Err x => Err x | Panic s => Panic s | OutOfFuel => OutOfFuel
              end
@@ -105,7 +105,7 @@ Definition set_kbtype (c : cctx) (kbtype : Z) : outcome (cctx * Z) :=
                          | Some r => (Z.to_N kbtype, r, 0)
                          | None => (KB_Default, (init_keyboard, init_syllable_editor), -1)
                          end in
-  match ml_set_layout (cx_ed c) (layout_number (snd row)) with
+  match ml_set_layout mdf_ops (cx_ed c) (layout_number (snd row)) with
   | Ok e => Ok (mkCctx e (keyboard_number (fst row)) kbn (cx_sel c), rc)
   | Err x => Err x | Panic s => Panic s | OutOfFuel => OutOfFuel
   end.
@@ -118,22 +118,22 @@ Definition set_selkey (c : cctx) (keys : list Z) : cctx :=
    index beyond 65535 are out of range of every list (lists are shorter than the dictionary), which the model
    expresses by the first index past the end of the current list *)
 Definition past_the_end (e : medl) : nat :=
-  match ml_candidates e with Ok (Some l) => List.length l | _ => O end.
+  match ml_candidates mdf_ops e with Ok (Some l) => List.length l | _ => O end.
 Definition choose_index (e : medl) (index : Z) : nat :=
   if (index <? 0) || (65535 <? index) then past_the_end e else Z.to_nat index.
 Definition cand_choose (conv : conv_fn memdict) (c : cctx) (index : Z) : outcome (cctx * Z) :=
-  match ml_select conv (cx_ed c) (choose_index (cx_ed c) index) with
+  match ml_select mdf_ops conv (cx_ed c) (choose_index (cx_ed c) index) with
   | Ok r => Ok (with_ed c (fst r), if snd r then 0 else -1)
   | Err x => Err x | Panic s => Panic s | OutOfFuel => OutOfFuel
   end.
 Definition cand_open (c : cctx) : outcome (cctx * Z) :=
-  match ml_start_selecting (cx_ed c) with
+  match ml_start_selecting mdf_ops (cx_ed c) with
   | Ok r => Ok (with_ed c (fst r), if snd r then 0 else -1)
   | Err x => Err x | Panic s => Panic s | OutOfFuel => OutOfFuel
   end.
 Definition cand_close (c : cctx) : cctx * Z := (with_ed c (fst (ml_cancel (cx_ed c))), 0).
 Definition commit_preedit (conv : conv_fn memdict) (c : cctx) : outcome (cctx * Z) :=
-  match ml_commit conv (cx_ed c) with
+  match ml_commit mdf_ops conv (cx_ed c) with
   | Ok r => Ok (with_ed c (fst r), if snd r then 0 else -1)
   | Err x => Err x | Panic s => Panic s | OutOfFuel => OutOfFuel
   end.
@@ -149,7 +149,7 @@ Definition cand_list (which : N) (c : cctx) : outcome (cctx * Z) :=
   if negb (is_selecting_b e) then Ok (c, -1)
   else
     let r := match which with
-             | 0%N => ml_jump_first e | 1%N => ml_jump_last e | 2%N => ml_jump_next e | _ => ml_jump_prev e
+             | 0%N => ml_jump_first mdf_ops e | 1%N => ml_jump_last mdf_ops e | 2%N => ml_jump_next mdf_ops e | _ => ml_jump_prev mdf_ops e
              end in
     match r with
     | Ok x => Ok (with_ed c (fst x), if (N.leb which 1) then 0 else if snd x then 0 else -1)
@@ -173,9 +173,9 @@ Definition c_flags (c : cctx) : list Z :=
     bz (negb (so_is_empty lay_ops (syl s)));
     Z.of_nat (cursor (com s));
     bz (negb (is_selecting_b e));
-    match ml_total_page e with Ok (Some n) => Z.of_nat n | _ => 0 end;
+    match ml_total_page mdf_ops e with Ok (Some n) => Z.of_nat n | _ => 0 end;
     Z.of_nat (o_per_page (opts s));
-    match ml_candidates e with Ok (Some l) => Z.of_nat (List.length l) | _ => 0 end;
+    match ml_candidates mdf_ops e with Ok (Some l) => Z.of_nat (List.length l) | _ => 0 end;
     match ed_page_no e with Some n => Z.of_nat n | None => 0 end;
     bz (negb (match notice s with [] => true | _ => false end));
     Z.of_nat (List.length (notice s));
@@ -187,7 +187,7 @@ Definition c_commit_string (c : cctx) : list N := commit_buf (sh (cx_ed c)).
 Definition c_aux_string (c : cctx) : list N := notice (sh (cx_ed c)).
 Definition c_cand_enumerate (c : cctx) : list (list N) :=
   let e := cx_ed c in
-  match ml_candidates e, ed_page_no e with
+  match ml_candidates mdf_ops e, ed_page_no e with
   | Ok (Some l), Some pg => skipn (pg * o_per_page (opts (sh e))) l
   | _, _ => []
   end.
